@@ -38,8 +38,8 @@ def discharged : List (String × String) := [
   ("removeUnusedSinglePass:opts.Spec.references.schemas", "set difference (C06.singlePass_keeps_used): removalPass_order_independent"),
   ("removeUnusedSinglePass:opts.Swagger().Definitions", "set construction"),
   ("removeUnusedSinglePass:unused", "deletions of distinct keys commute"),
-  ("stripOAIGen:opts.flattenContext.newRefs", "sampled only: the bodies mutate other entries"),
-  ("stripOAIGenForRef:opts.flattenContext.newRefs", "sampled only"),
+  ("stripOAIGen:opts.flattenContext.newRefs", "first loop: updateRefParents acts on each entry independently; second loop: the keys are collected, sorted in descending order, and the entries visited in that order (since the repair of the order-dependent failure: model Flatten.stripOrder)"),
+  ("stripOAIGenForRef:opts.flattenContext.newRefs", "propagation: the parents of each other entry are mapped independently of the others"),
   ("uniqifyName:definitions", "existential test (C03.uniqify_fresh): uniqifyName_order_independent"),
   ("updateRefParents:allRefs", "parents later sorted by TopmostFirst (total order, topmostFirst_perm): sortedParents_order_independent")]
 
